@@ -51,6 +51,8 @@ def die_in(draw, invalid=False):
     c["form"] = draw(st.sampled_from(forms))
     c["flat"] = draw(st.booleans())
     c["mut"] = None
+    # a refinement request the library refuses (aspect ratio <= sqrt 2, or no region asked for), made before the regions are read
+    c["refused"] = None if invalid else draw(st.sampled_from([None, None, [1.2, 4], [3, 0], [1.0, 1], [1.415, 3], [2, -1]]))
     if invalid:
         W, H = c["W"], c["H"]
         kind = draw(st.sampled_from(["overlap", "overlap", "outside", "thin-overlap"]))
@@ -266,6 +268,17 @@ def run_valid(c):
             if sorted(key(r) for r in getattr(die2, name)) != sorted(key(r) for r in getattr(die, name)):
                 raise Violation("a second Die of the same description object reports different %s" % name, "second-use-differs")
         cls.append("description-used-twice")
+    # a request the die refuses leaves it as it was
+    if c.get("refused"):
+        try:
+            die.split_refinable_regions(*c["refused"])
+        except Exception:
+            now = {name: sorted(key(r) for r in getattr(die, name)) for name in state0}
+            if now != state0:
+                raise Violation("after the refused request split_refinable_regions%s the die reports other regions: %s were %s\n%s" % (
+                    tuple(c["refused"]), {k: len(v) for k, v in now.items()}, {k: len(v) for k, v in state0.items()}, D.die_text(c)),
+                    "refused-request-alters-the-die")
+            cls.append("refused-refinement-request")
     nin = len(ein)
     touching = any(e[0] == 0 or e[1] == 0 or e[2] == W or e[3] == H for e in ein)
     if touching:
@@ -315,7 +328,7 @@ def subchecks():
         Sub("valid", run_valid, strategy=die_in(False), n_quick=12000, n_thorough=300000, fuzz_thorough=6000,
             required=("tree", "flow", "block", "file", "wxh", "touches-border", "regions-touch", "with-fixed",
                       "float-rounding", "decimal-unit", "single-region-without-list", "netlist-with-soft-modules",
-                      "tiny-module-in-netlist", "large-die", "description-used-twice", "netlist-with-movable-hard-modules", "netlist-changed-after-the-die-was-built")),
+                      "tiny-module-in-netlist", "large-die", "description-used-twice", "netlist-with-movable-hard-modules", "netlist-changed-after-the-die-was-built", "refused-refinement-request")),
         Sub("invalid", run_invalid, strategy=die_in(True), n_quick=6000, n_thorough=120000, fuzz_thorough=3000,
             required=("mut-overlap", "mut-outside", "mut-thin-overlap")),
     ]
